@@ -20,7 +20,8 @@ for _n in ("pytorch_lightning", "lightning.pytorch", "lightning", "lightning_fab
 warnings.filterwarnings("ignore")
 
 X, U = Space({"x": 1}), Space({"u": 1})
-MENU = ["pinn_static", "boundary", "param_penalty", "pinn_param", "adaptive_w", "data2", "pinn_random", "pideeponet", "periodic_param", "ritz"]
+MENU = ["pinn_static", "boundary", "param_penalty", "pinn_param", "adaptive_w", "data2", "pinn_random", "pideeponet", "periodic_param", "ritz",
+        "pideeponet_r", "pideeponet_r2"]
 OPTS = {
     "sgd": dict(cls=torch.optim.SGD, lr=0.05, args={}),
     "sgd_momentum": dict(cls=torch.optim.SGD, lr=0.05, args={"momentum": 0.9}),
@@ -28,6 +29,19 @@ OPTS = {
     "adam_steplr": dict(cls=torch.optim.Adam, lr=0.01, args={}, sched=torch.optim.lr_scheduler.StepLR, sargs={"step_size": 2, "gamma": 0.5}, freq=1),
     "sgd_steplr_f2": dict(cls=torch.optim.SGD, lr=0.05, args={}, sched=torch.optim.lr_scheduler.StepLR, sargs={"step_size": 1, "gamma": 0.5}, freq=2),
 }
+
+
+class DriftSampler(tp.samplers.PointSampler):
+    """deterministic NON-static parameter sampler of a function set: the c-th draw returns k = (0.1, 0.6) + 0.07*c.
+    The number of draws is observable (one per training step is the documented behaviour)."""
+    def __init__(self):
+        super().__init__(n_points=2)
+        self.calls = 0
+
+    def sample_points(self, params=Points.empty(), device="cpu", **kw):
+        c = self.calls
+        self.calls += 1
+        return Points(torch.tensor([[0.1 + 0.07 * c], [0.6 + 0.07 * c]]), Space({"k": 1}))
 
 
 class World:
@@ -42,6 +56,24 @@ class World:
         self.dom = tp.domains.Interval(X, 0.0, 1.0)
         self.conds = {}
         self._deeponet = None
+        self._deeponet_r = None
+        self.drift = DriftSampler()
+
+    def deeponet_r(self):
+        """a second DeepONet whose function set is re-drawn (deterministically) in every training step and is SHARED by
+        two conditions"""
+        if self._deeponet_r is None:
+            from torchphysics.models.deeponet.branchnets import FCBranchNet
+            from torchphysics.models.deeponet.trunknets import FCTrunkNet
+            from torchphysics.models.deeponet.deeponet import DeepONet
+            from torchphysics.problem.domains import CustomFunctionSet
+            torch.manual_seed(322)
+            fs = FunctionSpace(tp.domains.Interval(Space({"t": 1}), 0, 1), Space({"e": 1}))
+            ds = tp.samplers.GridSampler(fs.input_domain, 3).make_static()
+            net = DeepONet(FCTrunkNet(X, hidden=(3,)), FCBranchNet(fs, discretization_sampler=ds, hidden=(3,)), output_space=U, output_neurons=2)
+            fset = CustomFunctionSet(fs, self.drift, lambda k, t: torch.sin(3 * k * t) + k)
+            self._deeponet_r = (net, fset)
+        return self._deeponet_r
 
     def deeponet(self):
         if self._deeponet is None:
@@ -81,6 +113,10 @@ class World:
         elif kind == "pideeponet":
             net, fset = self.deeponet()
             c = Cn.PIDeepONetCondition(net, fset, S.GridSampler(self.dom, 3).make_static(), lambda u, x: u - x, weight=weight, name=kind)
+        elif kind in ("pideeponet_r", "pideeponet_r2"):
+            net, fset = self.deeponet_r()
+            fn = (lambda u, x: u - x) if kind == "pideeponet_r" else (lambda u, x: u + 0.5 * x * x)
+            c = Cn.PIDeepONetCondition(net, fset, S.GridSampler(self.dom, 3 if kind == "pideeponet_r" else 2).make_static(), fn, weight=weight, name=kind)
         elif kind == "periodic_param":
             c = Cn.PeriodicCondition(self.model, self.dom, lambda u_left, u_right, J: u_left - u_right - J, parameter=self.J, weight=weight, name=kind)
         elif kind == "ritz":
@@ -125,6 +161,12 @@ def learnables(conds):
         if isinstance(obj, nn.Module):
             for n, p in obj.named_parameters():
                 add("%s.%s" % (name, n), p)
+            # leaf tensors that require gradients but are plain attributes of some sub-module (not registered parameters)
+            # are learnable state as well: the optimizer must get them
+            for mn, m in obj.named_modules():
+                for k, v in vars(m).items():
+                    if isinstance(v, torch.Tensor) and not k.startswith("_"):
+                        add("%s.%s.%s<attribute>" % (name, mn, k), v)
             for k, v in vars(obj).items():
                 if k.startswith("_") and k not in ("_modules",):
                     continue
